@@ -37,7 +37,7 @@ manifest = {
         "add_only": True,
     },
     "engines": [{"name": "ufoverif", "path": "ufoverif/", "serves_properties": [c["property_id"] for c in checks],
-                 "kind_free_text": "Hypothesis-driven generated search (sharded over processes, seeded by VERIF_SEED) against independent reference models, table interpreters and differential/metamorphic relations; shrunk failures become JSON replay files"}],
+                 "kind_free_text": "Hypothesis-driven generated search (sharded over processes, seeded by VERIF_SEED) against independent reference models, table interpreters and differential/metamorphic relations; shrunk failures become JSON replay files. The thorough tier adds an auxiliary coverage-guided phase: atheris/libFuzzer drives the same strategy and oracle through Hypothesis' fuzz_one_input with ufo2ft instrumented for edge coverage (ufoverif/fuzz.py)"}],
     "checks": checks,
     "not_applicable": na,
     "notes": "All checks: exit 0 held / 1 + VIOLATION line / 2 harness error. Known findings are listed in known_findings.json and reported as KNOWN-FINDING lines.",
